@@ -132,6 +132,12 @@ def general_relations(pd, rng, ev_out, meta, count):
         M2 = rng.normal(size=(3, 3)) * 0.5
         getL = lambda t, x: M1 + t * M2 + 0.3 * x[1] * M1.T  # noqa: E731  non-commuting in time and position
         getx = lambda t: np.array([0.2 * t, 0.5 * t, -0.1 * t])  # noqa: E731
+        if i % 2 == 1:
+            # a CLOSED excursion: the particle moves out and comes back, so that the positions at the two ends of
+            # the whole interval are EXACTLY equal (triangle wave: tri(0) = tri(T) = 0) while the path between them is
+            # not a point - the split runs see different end positions
+            tri = lambda t: 1.0 - abs(2.0 * t / 0.6 - 1.0)  # noqa: E731
+            getx = lambda t: np.array([0.4 * tri(t), 0.8 * tri(t), -0.3 * tri(t)])  # noqa: E731
         F0 = np.eye(3) + rng.normal(size=(3, 3)) * 0.2
         if np.linalg.det(F0) <= 0.2:
             F0 = np.eye(3)
